@@ -75,16 +75,16 @@ def Target (pc len exit : Nat) : Outcome → Nat
   | .brk => exit
   | _ => pc + len
 
-def StmtGoal (img : Image) (st : Stmt) (f : Nat) : Prop :=
+def StmtGoal (img : Image) (K : Ctx) (st : Stmt) (f : Nat) : Prop :=
   ∀ (σ σ' : S) (o : Outcome) (s : State) (pc exit : Nat) (stk : List Frame),
-    Sim stk σ s → s.pc = (pc : Int) → CodeAt img pc (resolve (genStmt st) pc exit) →
+    Sim K stk σ s → s.pc = (pc : Int) → CodeAt img pc (resolve (genStmt st) pc exit) →
     execStmt f st σ = (o, σ') → (o = .normal ∨ o = .brk) →
-    Exec img s (At (Target pc (genStmt st).length exit o) stk [] σ')
+    Exec img s (At K (Target pc (genStmt st).length exit o) stk [] σ')
 
-variable {img : Image}
+variable {img : Image} {K : Ctx}
 
 theorem stmt_setReg (f : Nat) (r : Reg) (v : Rv) (hr : r ≠ .unitMode) (hv : RvOK v) :
-    StmtGoal img (.setReg r v) (f + 1) := by
+    StmtGoal img K (.setReg r v) (f + 1) := by
   intro σ σ' o s pc exit stk sim hpc hc h ho
   simp only [genStmt, resolve_ins, ins_length] at hc ⊢
   simp only [execStmt] at h
@@ -101,7 +101,7 @@ theorem stmt_setReg (f : Nat) (r : Reg) (v : Rv) (hr : r ≠ .unitMode) (hv : Rv
     rcases ho with rfl | rfl <;> simp at this
 
 theorem stmt_assign (f : Nat) (n : String) (v : Rv) (hv : RvOK v) :
-    StmtGoal img (.assign n v) (f + 1) := by
+    StmtGoal img K (.assign n v) (f + 1) := by
   intro σ σ' o s pc exit stk sim hpc hc h ho
   simp only [genStmt, resolve_ins, ins_length] at hc ⊢
   simp only [execStmt] at h
@@ -124,7 +124,7 @@ theorem error_excluded {v : Rv} (hv : RvOK v) {f : Nat} {σ : S} {o : Outcome}
   have := evalRv_error hv f σ _ hev
   rcases ho with rfl | rfl <;> simp at this
 
-theorem stmt_print (f : Nat) (v : Rv) (hv : RvOK v) : StmtGoal img (.print v) (f + 1) := by
+theorem stmt_print (f : Nat) (v : Rv) (hv : RvOK v) : StmtGoal img K (.print v) (f + 1) := by
   intro σ σ' o s pc exit stk sim hpc hc h ho
   simp only [genStmt, resolve_ins, ins_length] at hc ⊢
   simp only [execStmt] at h
@@ -145,7 +145,7 @@ theorem stmt_print (f : Nat) (v : Rv) (hv : RvOK v) : StmtGoal img (.print v) (f
 
 theorem stmt_println (f : Nat) (v : Option Rv)
     (hv : match v with | some rv => RvOK rv | none => True) :
-    StmtGoal img (.println v) (f + 1) := by
+    StmtGoal img K (.println v) (f + 1) := by
   intro σ σ' o s pc exit stk sim hpc hc h ho
   cases v with
   | none =>
@@ -176,14 +176,14 @@ theorem stmt_println (f : Nat) (v : Option Rv)
       obtain ⟨rfl, rfl⟩ := h
       exact (error_excluded hv hev ho).elim
 
-theorem stmt_defMacro (f : Nat) (n : String) (v : Val) : StmtGoal img (.defMacro n v) (f + 1) := by
+theorem stmt_defMacro (f : Nat) (n : String) (v : Val) : StmtGoal img K (.defMacro n v) (f + 1) := by
   intro σ σ' o s pc exit stk sim hpc hc h ho
   simp only [genStmt, resolve_ins, ins_length] at hc ⊢
   simp only [execStmt, Prod.mk.injEq] at h
   obtain ⟨rfl, rfl⟩ := h
   exact exec_constant n v sim hpc hc.head
 
-theorem stmt_wait (f : Nat) : StmtGoal img .wait (f + 1) := by
+theorem stmt_wait (f : Nat) : StmtGoal img K .wait (f + 1) := by
   intro σ σ' o s pc exit stk sim hpc hc h ho
   simp only [genStmt, resolve_ins, ins_length] at hc ⊢
   simp only [execStmt] at h
@@ -194,7 +194,7 @@ theorem stmt_wait (f : Nat) : StmtGoal img .wait (f + 1) := by
   subst hn
   exact exec_wait sim hpc hc.head h
 
-theorem stmt_units (f : Nat) (m : UnitMode) : StmtGoal img (.units m) (f + 1) := by
+theorem stmt_units (f : Nat) (m : UnitMode) : StmtGoal img K (.units m) (f + 1) := by
   intro σ σ' o s pc exit stk sim hpc hc h ho
   simp only [genStmt, resolve_ins, ins_length] at hc ⊢
   simp only [execStmt] at h
@@ -205,14 +205,14 @@ theorem stmt_units (f : Nat) (m : UnitMode) : StmtGoal img (.units m) (f + 1) :=
   subst hn
   exact exec_units m sim hpc hc.head h
 
-theorem stmt_brk (f : Nat) : StmtGoal img .brk (f + 1) := by
+theorem stmt_brk (f : Nat) : StmtGoal img K .brk (f + 1) := by
   intro σ σ' o s pc exit stk sim hpc hc h ho
   simp only [genStmt, resolve] at hc ⊢
   simp only [execStmt, Prod.mk.injEq] at h
   obtain ⟨rfl, rfl⟩ := h
   exact exec_jump .always _ exit (by simp) sim hpc hc.head (by simp; omega)
 
-theorem stmt_timeAt (f : Nat) (ps : List TP.Pat) : StmtGoal img (.timeAt ps) (f + 1) := by
+theorem stmt_timeAt (f : Nat) (ps : List TP.Pat) : StmtGoal img K (.timeAt ps) (f + 1) := by
   intro σ σ' o s pc exit stk sim hpc hc h ho
   simp only [genStmt, resolve_ins, ins_length] at hc ⊢
   simp only [execStmt] at h
@@ -243,7 +243,7 @@ theorem stmt_timeAt (f : Nat) (ps : List TP.Pat) : StmtGoal img (.timeAt ps) (f 
       simp only [S.setReg, State.setReg]
       split <;> simp_all
 
-variable {img : Image} {stk : List Frame} {un : List Val} {σ : S} {s : State} {pc : Nat}
+variable {img : Image} {K : Ctx} {stk : List Frame} {un : List Val} {σ : S} {s : State} {pc : Nat}
 
 /-! ### ranges -/
 
@@ -269,9 +269,9 @@ theorem evalRange_error {r : Range} (hr : RangeOK r) (f : Nat) (a b : Reg) (σ :
         · simp at h
 
 theorem exec_range (r : Range) (hr : RangeOK r) (a b : Reg) (ha : a ≠ .unitMode) (hb : b ≠ .unitMode)
-    (h : SimU stk un σ s) (hpc : s.pc = (pc : Int)) (hc : CodeAt img pc (genRange a b r))
+    (h : SimU K stk un σ s) (hpc : s.pc = (pc : Int)) (hc : CodeAt img pc (genRange a b r))
     {f : Nat} {σ' : S} (hev : evalRange f r a b σ = .ok σ') :
-    Exec img s (At (pc + (genRange a b r).length) stk un σ') := by
+    Exec img s (At K (pc + (genRange a b r).length) stk un σ') := by
   cases f with
   | zero => simp [evalRange] at hev
   | succ f =>
@@ -312,9 +312,9 @@ def oEval (f : Nat) (a b : Reg) (o : Option Range) (st : S) : Except Outcome S :
 
 /-- an optional range (`rows`/`cols` of a matrix operand) -/
 theorem exec_orange (o : Option Range) (ho : ORangeOK o) (a b : Reg) (ha : a ≠ .unitMode)
-    (hb : b ≠ .unitMode) (h : SimU stk un σ s) (hpc : s.pc = (pc : Int))
+    (hb : b ≠ .unitMode) (h : SimU K stk un σ s) (hpc : s.pc = (pc : Int))
     (hc : CodeAt img pc (oCode a b o)) {f : Nat} {σ' : S} (hev : oEval f a b o σ = .ok σ') :
-    Exec img s (At (pc + (oCode a b o).length) stk un σ') := by
+    Exec img s (At K (pc + (oCode a b o).length) stk un σ') := by
   cases o with
   | none =>
     simp only [oEval, Except.ok.injEq] at hev
@@ -323,9 +323,9 @@ theorem exec_orange (o : Option Range) (ho : ORangeOK o) (a b : Reg) (ha : a ≠
   | some r => exact exec_range r ho a b ha hb h hpc hc hev
 
 theorem exec_clear (o : Option Range) (a b : Reg) (ha : a ≠ .unitMode) (hb : b ≠ .unitMode)
-    (h : SimU stk un σ s) (hpc : s.pc = (pc : Int))
+    (h : SimU K stk un σ s) (hpc : s.pc = (pc : Int))
     (hc : CodeAt img pc (if o.isNone then [Instr.moveq .none (.reg a), .moveq .none (.reg b)] else [])) :
-    Exec img s (At (pc + (if o.isNone then [Instr.moveq .none (.reg a), .moveq .none (.reg b)] else []).length)
+    Exec img s (At K (pc + (if o.isNone then [Instr.moveq .none (.reg a), .moveq .none (.reg b)] else []).length)
       stk un (if o.isNone then (σ.setReg a .none).setReg b .none else σ)) := by
   cases o with
   | some r => exact Exec.done ⟨by simpa using hpc, h⟩
@@ -377,11 +377,11 @@ theorem evalMatrixRanges_error {rows cols : Option Range} (hr : ORangeOK rows) (
 /-- the ranges of a matrix stage: `MOVEQ matrix operand`, rows and columns in source order,
 absent ranges cleared -/
 theorem exec_matrixRanges (rows cols : Option Range) (cf : Bool) (hr : ORangeOK rows)
-    (hcl : ORangeOK cols) (h : SimU stk un σ s) (hpc : s.pc = (pc : Int))
+    (hcl : ORangeOK cols) (h : SimU K stk un σ s) (hpc : s.pc = (pc : Int))
     (hc : CodeAt img pc (genMatrixRanges rows cols cf))
     {f : Nat} {σ' : S}
     (hev : evalMatrixRanges f rows cols cf (σ.setReg .operand (.operand .matrix)) = .ok σ') :
-    Exec img s (At (pc + (genMatrixRanges rows cols cf).length) stk un σ') := by
+    Exec img s (At K (pc + (genMatrixRanges rows cols cf).length) stk un σ') := by
   cases f with
   | zero => simp [evalMatrixRanges] at hev
   | succ f =>
@@ -456,17 +456,17 @@ theorem device_outcome {σ σ' : S} {hd : State → State} {o : Outcome}
   · simp only [S.device] at h; split at h <;> simp at h
 
 /-- the command instruction of `set` / `on` / `off` -/
-theorem exec_fire (k : ActKind) (h : SimU stk un σ s) (hpc : s.pc = (pc : Int))
+theorem exec_fire (k : ActKind) (h : SimU K stk un σ s) (hpc : s.pc = (pc : Int))
     (hi : img.code[pc]? = some (opcodeOf k)) {σ' : S}
     (hdev : σ.device (if k == .set then State.doColor else State.doPower) = (.normal, σ')) :
-    Exec img s (At (pc + 1) stk un σ') := by
+    Exec img s (At K (pc + 1) stk un σ') := by
   cases k with
   | set => exact exec_color h hpc hi hdev
   | on => exact exec_power h hpc hi hdev
   | off => exact exec_power h hpc hi hdev
 
 theorem stmt_stage (f : Nat) (rows cols : Option Range) (cf : Bool) (hr : ORangeOK rows)
-    (hcl : ORangeOK cols) : StmtGoal img (.stage rows cols cf) (f + 1) := by
+    (hcl : ORangeOK cols) : StmtGoal img K (.stage rows cols cf) (f + 1) := by
   intro σ σ' o s pc exit stk sim hpc hc h ho
   simp only [genStmt, resolve_ins, ins_length] at hc ⊢
   simp only [execStmt] at h
@@ -483,7 +483,7 @@ theorem stmt_stage (f : Nat) (rows cols : Option Range) (cf : Bool) (hr : ORange
     refine (exec_color ht.2 ht.1 hc.right.head h).mono fun t2 ht2 => ?_
     simpa [Target, List.length_append, Nat.add_assoc] using ht2
 
-theorem stmt_setDefault (f : Nat) : StmtGoal img .setDefault (f + 1) := by
+theorem stmt_setDefault (f : Nat) : StmtGoal img K .setDefault (f + 1) := by
   intro σ σ' o s pc exit stk sim hpc hc h ho
   simp only [genStmt, resolve_ins, ins_length] at hc ⊢
   simp only [execStmt] at h
@@ -520,9 +520,9 @@ def powerCode (k : ActKind) : List Instr :=
   | .off => [.moveq (.bool false) (.reg .power)]
   | .set => []
 
-theorem exec_powerSet (k : ActKind) (h : SimU stk un σ s) (hpc : s.pc = (pc : Int))
+theorem exec_powerSet (k : ActKind) (h : SimU K stk un σ s) (hpc : s.pc = (pc : Int))
     (hc : CodeAt img pc (powerCode k)) :
-    Exec img s (At (pc + (powerCode k).length) stk un (powerSet k σ)) := by
+    Exec img s (At K (pc + (powerCode k).length) stk un (powerSet k σ)) := by
   cases k with
   | set => exact Exec.done ⟨by simpa [powerCode] using hpc, h⟩
   | on => exact exec_moveqReg _ .power (by decide) h hpc hc.head
@@ -546,7 +546,7 @@ theorem device_then {σ : S} {hd : State → State} {o : Outcome} {σ' : S} {k :
       have := device_outcome hdv ho
       simp at this
 
-theorem stmt_actAll (f : Nat) (k : ActKind) : StmtGoal img (.actAll k) (f + 1) := by
+theorem stmt_actAll (f : Nat) (k : ActKind) : StmtGoal img K (.actAll k) (f + 1) := by
   intro σ σ' o s pc exit stk sim hpc hc h ho
   simp only [genStmt, resolve_ins, ins_length] at hc ⊢
   simp only [execStmt] at h
@@ -557,7 +557,7 @@ theorem stmt_actAll (f : Nat) (k : ActKind) : StmtGoal img (.actAll k) (f + 1) :
   subst hn
   have hc' : CodeAt img pc (powerCode k ++ [.wait, .moveq (.operand .all) (.reg .operand), opcodeOf k]) := by
     cases k <;> exact hc
-  suffices hgoal : Exec img s (At (pc + (powerCode k ++
+  suffices hgoal : Exec img s (At K (pc + (powerCode k ++
       [Instr.wait, .moveq (.operand .all) (.reg .operand), opcodeOf k]).length) stk [] σ') by
     cases k <;> exact hgoal
   refine (exec_powerSet k sim hpc hc'.left).trans fun t ht => ?_
@@ -566,7 +566,7 @@ theorem stmt_actAll (f : Nat) (k : ActKind) : StmtGoal img (.actAll k) (f + 1) :
   refine (exec_fire k ht3.2 ht3.1 hc'.right.tail.tail.head hfire).mono fun t4 ht4 => ?_
   simpa [Target, List.length_append, Nat.add_assoc] using ht4
 
-theorem stmt_get (f : Nat) (name : Rv) (hv : RvOK name) : StmtGoal img (.get name) (f + 1) := by
+theorem stmt_get (f : Nat) (name : Rv) (hv : RvOK name) : StmtGoal img K (.get name) (f + 1) := by
   intro σ σ' o s pc exit stk sim hpc hc h ho
   simp only [genStmt, resolve_ins, ins_length] at hc ⊢
   simp only [execStmt] at h
@@ -578,7 +578,7 @@ theorem stmt_get (f : Nat) (name : Rv) (hv : RvOK name) : StmtGoal img (.get nam
     refine hex.trans fun t ⟨ht, hres⟩ => ?_
     refine (exec_moveResultName ht.2 ht.1 hc.right.head).trans fun t2 ⟨ht2, _⟩ => ?_
     rw [hres] at ht2
-    have hsim : SimU stk [] ((σ1.setReg .result n).setReg .name n) t2 := by
+    have hsim : SimU K stk [] ((σ1.setReg .result n).setReg .name n) t2 := by
       have := ht2.2
       refine ⟨this.running, this.stack, this.loops, this.eval, this.unnamed, this.locals, this.status,
         this.globals, this.constants, this.lights, this.trace, this.defaultColor, this.matrix, this.draws,
@@ -624,10 +624,10 @@ theorem evalOutArgs_error :
 theorem exec_outArgs :
     ∀ (f : Nat) (as : Args), ArgsOK as →
     ∀ (σ σ' : S) (vals : List Val) (s : State) (pc : Nat) (un : List Val),
-      SimU stk un σ s → s.pc = (pc : Int) → CodeAt img pc (genOutArgs as) →
+      SimU K stk un σ s → s.pc = (pc : Int) → CodeAt img pc (genOutArgs as) →
       evalOutArgs f as σ = .ok (vals, σ') →
       σ' = σ ∧ vals.length = as.toList.length ∧
-      Exec img s (At (pc + (genOutArgs as).length) stk (un ++ vals) σ) := by
+      Exec img s (At K (pc + (genOutArgs as).length) stk (un ++ vals) σ) := by
   intro f
   induction f with
   | zero => intro as _ σ σ' vals s pc un h hpc hc hev; simp [evalOutArgs] at hev
@@ -650,16 +650,16 @@ theorem exec_outArgs :
           simp only [Except.ok.injEq, Prod.mk.injEq] at hev
           obtain ⟨rfl, rfl⟩ := hev
           obtain ⟨rfl, hex⟩ := exec_toResult a has.1 h hpc hc.left.left he1
-          have hstep : Exec img s (At (pc + (genRv a (.to result)).length + 1) stk (un ++ [v]) σ1) := by
+          have hstep : Exec img s (At K (pc + (genRv a (.to result)).length + 1) stk (un ++ [v]) σ1) := by
             refine hex.trans fun t ⟨ht, hres⟩ => ?_
             have := exec_outRegister ht.2 ht.1 hc.left.right.head
             rw [hres] at this
             exact this
           have hc2 := hc.right
           simp only [List.length_append, List.length_cons, List.length_nil] at hc2
-          have hrest := fun t (ht : At (pc + (genRv a (.to result)).length + 1) stk (un ++ [v]) σ1 t) =>
+          have hrest := fun t (ht : At K (pc + (genRv a (.to result)).length + 1) stk (un ++ [v]) σ1 t) =>
             ih rest has.2 σ1 σ2 vs t _ (un ++ [v]) ht.2 ht.1 hc2 he2
-          obtain ⟨t0, ht0⟩ : ∃ t0, At (pc + (genRv a (.to result)).length + 1) stk (un ++ [v]) σ1 t0 := by
+          obtain ⟨t0, ht0⟩ : ∃ t0, At K (pc + (genRv a (.to result)).length + 1) stk (un ++ [v]) σ1 t0 := by
             obtain ⟨k, hk⟩ := hstep; exact ⟨_, hk⟩
           obtain ⟨rfl, hlen, _⟩ := hrest t0 ht0
           refine ⟨rfl, by simp [Args.toList, hlen], ?_⟩
@@ -671,7 +671,7 @@ theorem exec_outArgs :
 theorem stmt_printf (f : Nat) (fmt : String) (as : Args) (has : ArgsOK as)
     (hcount : as.toList.length ≤ positionalCount (fmt.replace "\\n" "\n").toList)
     (hres : "result" ∉ fieldNames (fmt.replace "\\n" "\n").toList) :
-    StmtGoal img (.printf fmt as) (f + 1) := by
+    StmtGoal img K (.printf fmt as) (f + 1) := by
   intro σ σ' o s pc exit stk sim hpc hc h ho
   simp only [genStmt, resolve_ins, ins_length] at hc ⊢
   simp only [execStmt] at h
@@ -692,7 +692,7 @@ theorem stmt_printf (f : Nat) (fmt : String) (as : Args) (has : ArgsOK as)
     rw [ht2.1]; simp [Target, List.length_append, Nat.add_assoc]
 
 
-variable {img : Image}
+variable {img : Image} {K : Ctx}
 
 /-- an instruction fetched at an address written differently -/
 macro "idx " h:term : term =>
@@ -708,36 +708,36 @@ macro "cat " h:term : term =>
 
 /-! ## blocks, operands -/
 
-def BlockGoal (img : Image) (f : Nat) : Prop :=
+def BlockGoal (img : Image) (K : Ctx) (f : Nat) : Prop :=
   ∀ b, FragBlock b → ∀ (σ σ' : S) (o : Outcome) (s : State) (pc exit : Nat) (stk : List Frame),
-    Sim stk σ s → s.pc = (pc : Int) → CodeAt img pc (resolve (genBlock b) pc exit) →
+    Sim K stk σ s → s.pc = (pc : Int) → CodeAt img pc (resolve (genBlock b) pc exit) →
     execBlock f b σ = (o, σ') → (o = .normal ∨ o = .brk) →
-    Exec img s (At (Target pc (genBlock b).length exit o) stk [] σ')
+    Exec img s (At K (Target pc (genBlock b).length exit o) stk [] σ')
 
-def StmtsGoal (img : Image) (f : Nat) : Prop := ∀ st, FragStmt st → StmtGoal img st f
+def StmtsGoal (img : Image) (K : Ctx) (f : Nat) : Prop := ∀ st, FragStmt st → StmtGoal img K st f
 
-def OperandGoal (img : Image) (f : Nat) : Prop :=
+def OperandGoal (img : Image) (K : Ctx) (f : Nat) : Prop :=
   ∀ (k : ActKind) (op : Operand_), FragOperand op →
   ∀ (σ σ' : S) (o : Outcome) (s : State) (pc exit : Nat) (stk : List Frame),
-    Sim stk σ s → s.pc = (pc : Int) →
+    Sim K stk σ s → s.pc = (pc : Int) →
     CodeAt img pc (resolve (genOperand op ++ ins [opcodeOf k]) pc exit) →
     execOperand f k op σ = (o, σ') → (o = .normal ∨ o = .brk) →
-    Exec img s (At (Target pc ((genOperand op).length + 1) exit o) stk [] σ')
+    Exec img s (At K (Target pc ((genOperand op).length + 1) exit o) stk [] σ')
 
-def OperandsGoal (img : Image) (f : Nat) : Prop :=
+def OperandsGoal (img : Image) (K : Ctx) (f : Nat) : Prop :=
   ∀ (k : ActKind) (ops : Operands), FragOperands ops →
   ∀ (σ σ' : S) (o : Outcome) (s : State) (pc exit : Nat) (stk : List Frame),
-    Sim stk σ s → s.pc = (pc : Int) →
+    Sim K stk σ s → s.pc = (pc : Int) →
     CodeAt img pc (resolve (genOperands k ops) pc exit) →
     execOperands f k ops σ = (o, σ') → (o = .normal ∨ o = .brk) →
-    Exec img s (At (Target pc (genOperands k ops).length exit o) stk [] σ')
+    Exec img s (At K (Target pc (genOperands k ops).length exit o) stk [] σ')
 
-theorem block_zero : BlockGoal img 0 := by
+theorem block_zero : BlockGoal img K 0 := by
   intro b _ σ σ' o s pc exit stk _ _ _ h ho
   simp only [execBlock, Prod.mk.injEq] at h
   rcases ho with rfl | rfl <;> simp at h
 
-theorem block_step (f : Nat) (ihS : StmtsGoal img f) (ihB : BlockGoal img f) : BlockGoal img (f + 1) := by
+theorem block_step (f : Nat) (ihS : StmtsGoal img K f) (ihB : BlockGoal img K f) : BlockGoal img K (f + 1) := by
   intro b hb σ σ' o s pc exit stk sim hpc hc h ho
   cases b with
   | nil =>
@@ -779,21 +779,21 @@ def nameSet (n : NameSpec) (σ : S) : S :=
   | .var x => σ.setReg .name (σ.lookup x)
 
 theorem exec_nameSet {stk : List Frame} {un : List Val} {σ : S} {s : State} {pc : Nat}
-    (n : NameSpec) (h : SimU stk un σ s) (hpc : s.pc = (pc : Int))
+    (n : NameSpec) (h : SimU K stk un σ s) (hpc : s.pc = (pc : Int))
     (hi : img.code[pc]? = some (genName n)) :
-    Exec img s (At (pc + 1) stk un (nameSet n σ)) := by
+    Exec img s (At K (pc + 1) stk un (nameSet n σ)) := by
   have := exec_genName n h hpc hi
   cases n <;> exact this
 
 /-- `light`, `group`, `location` operands: name, operand kind, command -/
 theorem operand_plain (k : ActKind) (n : NameSpec) (w : Operand)
     (σ σ' : S) (o : Outcome) (s : State) (pc : Nat) (stk : List Frame)
-    (sim : Sim stk σ s) (hpc : s.pc = (pc : Int))
+    (sim : Sim K stk σ s) (hpc : s.pc = (pc : Int))
     (hc : CodeAt img pc ([genName n, .moveq (.operand w) (.reg .operand)] ++ [opcodeOf k]))
     (h : ((nameSet n σ).setReg .operand (.operand w)).device
       (if k == .set then State.doColor else State.doPower) = (o, σ'))
     (ho : o = .normal ∨ o = .brk) :
-    Exec img s (At (pc + 3) stk [] σ') ∧ o = .normal := by
+    Exec img s (At K (pc + 3) stk [] σ') ∧ o = .normal := by
   have hn := device_outcome h ho
   subst hn
   refine ⟨?_, rfl⟩
@@ -803,10 +803,10 @@ theorem operand_plain (k : ActKind) (n : NameSpec) (w : Operand)
 
 theorem operand_zone (f : Nat) (k : ActKind) (n : NameSpec) (r : Range) (hr : RangeOK r)
     (σ σ' : S) (o : Outcome) (s : State) (pc exit : Nat) (stk : List Frame)
-    (sim : Sim stk σ s) (hpc : s.pc = (pc : Int))
+    (sim : Sim K stk σ s) (hpc : s.pc = (pc : Int))
     (hc : CodeAt img pc (resolve (genOperand (.zone n r) ++ ins [opcodeOf k]) pc exit))
     (h : execOperand (f + 1) k (.zone n r) σ = (o, σ')) (ho : o = .normal ∨ o = .brk) :
-    Exec img s (At (Target pc ((genOperand (.zone n r)).length + 1) exit o) stk [] σ') := by
+    Exec img s (At K (Target pc ((genOperand (.zone n r)).length + 1) exit o) stk [] σ') := by
   simp only [genOperand, resolve_append, resolve_ins, ins_length] at hc ⊢
   simp only [execOperand] at h
   split at h
@@ -885,10 +885,10 @@ theorem execOperand_matrixBlock (f : Nat) (k : ActKind) (n : NameSpec) (body : B
 theorem operand_matrixInline (f : Nat) (k : ActKind) (n : NameSpec) (rows cols : Option Range)
     (cf : Bool) (hr : ORangeOK rows) (hcl : ORangeOK cols)
     (σ σ' : S) (o : Outcome) (s : State) (pc exit : Nat) (stk : List Frame)
-    (sim : Sim stk σ s) (hpc : s.pc = (pc : Int))
+    (sim : Sim K stk σ s) (hpc : s.pc = (pc : Int))
     (hc : CodeAt img pc (resolve (genOperand (.matrixInline n rows cols cf) ++ ins [opcodeOf k]) pc exit))
     (h : execOperand (f + 1) k (.matrixInline n rows cols cf) σ = (o, σ')) (ho : o = .normal ∨ o = .brk) :
-    Exec img s (At (Target pc ((genOperand (.matrixInline n rows cols cf)).length + 1) exit o) stk [] σ') := by
+    Exec img s (At K (Target pc ((genOperand (.matrixInline n rows cols cf)).length + 1) exit o) stk [] σ') := by
   simp only [genOperand, resolve_append, resolve_ins, ins_length] at hc ⊢
   rw [execOperand_matrixInline] at h
   obtain ⟨s1, hm, h⟩ := andThen_device h ho
@@ -933,13 +933,13 @@ theorem andThen_cases {r : Outcome × S} {K : S → Outcome × S} {o : Outcome} 
     obtain ⟨rfl, rfl⟩ := h
     exact Or.inr ⟨rfl, hn⟩
 
-theorem operand_matrixBlock (f : Nat) (ihB : BlockGoal img f) (k : ActKind) (n : NameSpec)
+theorem operand_matrixBlock (f : Nat) (ihB : BlockGoal img K f) (k : ActKind) (n : NameSpec)
     (body : Block) (hb : FragBlock body)
     (σ σ' : S) (o : Outcome) (s : State) (pc exit : Nat) (stk : List Frame)
-    (sim : Sim stk σ s) (hpc : s.pc = (pc : Int))
+    (sim : Sim K stk σ s) (hpc : s.pc = (pc : Int))
     (hc : CodeAt img pc (resolve (genOperand (.matrixBlock n body) ++ ins [opcodeOf k]) pc exit))
     (h : execOperand (f + 1) k (.matrixBlock n body) σ = (o, σ')) (ho : o = .normal ∨ o = .brk) :
-    Exec img s (At (Target pc ((genOperand (.matrixBlock n body)).length + 1) exit o) stk [] σ') := by
+    Exec img s (At K (Target pc ((genOperand (.matrixBlock n body)).length + 1) exit o) stk [] σ') := by
   simp only [genOperand, resolve_append, resolve_ins, ins_length] at hc ⊢
   rw [execOperand_matrixBlock] at h
   obtain ⟨s1, hm, h⟩ := andThen_device h ho
@@ -971,12 +971,12 @@ theorem operand_matrixBlock (f : Nat) (ihB : BlockGoal img f) (k : ActKind) (n :
     exact ihB body hb s1 σ' .brk t1 _ exit stk ht1.2 ht1.1 hcb hbody (Or.inr rfl)
 
 
-theorem operand_zero : OperandGoal img 0 := by
+theorem operand_zero : OperandGoal img K 0 := by
   intro k op _ σ σ' o s pc exit stk _ _ _ h ho
   simp only [execOperand, Prod.mk.injEq] at h
   rcases ho with rfl | rfl <;> simp at h
 
-theorem operand_step (f : Nat) (ihB : BlockGoal img f) : OperandGoal img (f + 1) := by
+theorem operand_step (f : Nat) (ihB : BlockGoal img K f) : OperandGoal img K (f + 1) := by
   intro k op hop σ σ' o s pc exit stk sim hpc hc h ho
   cases op with
   | light n =>
@@ -1006,13 +1006,13 @@ theorem operand_step (f : Nat) (ihB : BlockGoal img f) : OperandGoal img (f + 1)
   | matrixBlock n body =>
     exact operand_matrixBlock f ihB k n body hop σ σ' o s pc exit stk sim hpc hc h ho
 
-theorem operands_zero : OperandsGoal img 0 := by
+theorem operands_zero : OperandsGoal img K 0 := by
   intro k op _ σ σ' o s pc exit stk _ _ _ h ho
   simp only [execOperands, Prod.mk.injEq] at h
   rcases ho with rfl | rfl <;> simp at h
 
-theorem operands_step (f : Nat) (ihO : OperandGoal img f) (ihOs : OperandsGoal img f) :
-    OperandsGoal img (f + 1) := by
+theorem operands_step (f : Nat) (ihO : OperandGoal img K f) (ihOs : OperandsGoal img K f) :
+    OperandsGoal img K (f + 1) := by
   intro k ops hops σ σ' o s pc exit stk sim hpc hc h ho
   cases ops with
   | nil =>
@@ -1045,8 +1045,8 @@ theorem operands_step (f : Nat) (ihO : OperandGoal img f) (ihOs : OperandsGoal i
       subst hb'
       exact ihO k op hops.1 σ σ' .brk s pc exit stk sim hpc hc'.left hop (Or.inr rfl)
 
-theorem stmt_action (f : Nat) (ihOs : OperandsGoal img f) (k : ActKind) (ops : Operands)
-    (hops : FragOperands ops) : StmtGoal img (.action k ops) (f + 1) := by
+theorem stmt_action (f : Nat) (ihOs : OperandsGoal img K f) (k : ActKind) (ops : Operands)
+    (hops : FragOperands ops) : StmtGoal img K (.action k ops) (f + 1) := by
   intro σ σ' o s pc exit stk sim hpc hc h ho
   simp only [execStmt] at h
   have h' : andThen ((powerSet k σ).device fun vm => execInstr default vm .wait)
@@ -1060,7 +1060,7 @@ theorem stmt_action (f : Nat) (ihOs : OperandsGoal img f) (k : ActKind) (ops : O
     simp only [genStmt, resolve_append, resolve_ins, ins_length, List.length_append, List.length_cons,
       List.length_nil] at this
     cases k <;> exact this
-  suffices hgoal : Exec img s (At (Target pc ((powerCode k).length + 1 + (genOperands k ops).length)
+  suffices hgoal : Exec img s (At K (Target pc ((powerCode k).length + 1 + (genOperands k ops).length)
       exit o) stk [] σ') by
     simp only [genStmt, List.length_append, ins_length, List.length_cons, List.length_nil]
     cases k <;> exact hgoal
@@ -1075,8 +1075,8 @@ theorem stmt_action (f : Nat) (ihOs : OperandsGoal img f) (k : ActKind) (ops : O
 
 /-! ## `if` -/
 
-theorem stmt_ite_none (f : Nat) (ihB : BlockGoal img f) (c : Rv) (hcnd : RvOK c) (t : Block)
-    (ht : FragBlock t) : StmtGoal img (.ite c t none) (f + 1) := by
+theorem stmt_ite_none (f : Nat) (ihB : BlockGoal img K f) (c : Rv) (hcnd : RvOK c) (t : Block)
+    (ht : FragBlock t) : StmtGoal img K (.ite c t none) (f + 1) := by
   intro σ σ' o s pc exit stk sim hpc hc h ho
   simp only [genStmt, genIf, resolve_append, resolve_ins, ins_length, resolve, List.length_append,
     List.length_cons, List.length_nil] at hc ⊢
@@ -1102,8 +1102,8 @@ theorem stmt_ite_none (f : Nat) (ihB : BlockGoal img f) (c : Rv) (hcnd : RvOK c)
         (by simp) ht0.2 ht0.1 hj (by simp [hres, hx]; omega)).mono fun t1 ht1 => ?_
       simpa [Target] using ht1
 
-theorem stmt_ite_some (f : Nat) (ihB : BlockGoal img f) (c : Rv) (hcnd : RvOK c) (t e : Block)
-    (ht : FragBlock t) (he : FragBlock e) : StmtGoal img (.ite c t (some e)) (f + 1) := by
+theorem stmt_ite_some (f : Nat) (ihB : BlockGoal img K f) (c : Rv) (hcnd : RvOK c) (t e : Block)
+    (ht : FragBlock t) (he : FragBlock e) : StmtGoal img K (.ite c t (some e)) (f + 1) := by
   intro σ σ' o s pc exit stk sim hpc hc h ho
   simp only [genStmt, genIf, resolve_append, resolve_ins, ins_length, resolve, List.length_append,
     List.length_cons, List.length_nil] at hc ⊢
